@@ -197,23 +197,27 @@ Example ex_passive_loop :
 Proof. vm_compute. split; [reflexivity|]. split; [reflexivity|]. split; [reflexivity|]. split; reflexivity. Qed.
 
 (* the hypotheses of [passive_loop_quiesces] are met by the state after the cycle of the last
-   external write (t = 5) of that run: only the (passively read) source is due, at 6, and
-   nothing else is armed *)
+   external write (t = 5) of the passive accumulator (the same graph without the recorder,
+   which is an active reader): only the passively read source is due, at 6, nothing else is armed *)
+Definition quiet_case : wire :=
+  [[1;1;12]; [2;0;1;0;1;0;0]; [4;1;1;7]; [2;2;0;0;1;2;1;0;1;1;1;0;0]; [5;3;2;1];
+   [3;0;-1;1;0;0]; [3;0;0;6;1;0]; [3;0;0;1;1;0]; [3;0;1;6;2;0]; [3;0;1;1;3;0]; [3;0;2;6;3;0]; [3;2;-2;6;0;0]].
+
 Example ex_passive_hypotheses :
-  let '(cfgs, kinds) := graph_of (loop_case 0) in
-  let x := nth 3 (snd (run_of (loop_case 0))) (fstart cfgs kinds (script_beh (loop_case 0)) 1) in
+  let '(cfgs, kinds) := graph_of quiet_case in
+  let x := nth 3 (snd (run_of quiet_case)) (fstart cfgs kinds (script_beh quiet_case) 1) in
   g_nst (f_g x) = 6 /\
   (forall i, (i < length cfgs)%nat -> slot_at i (f_g x) <= g_nst (f_g x)) /\
   (forall i, (i < length cfgs)%nat -> slot_at i (f_g x) = g_nst (f_g x) -> unread_source cfgs kinds i).
 Proof.
   cbv beta iota zeta delta [graph_of].
-  set (cfgs := map fst (parse_fnodes (loop_case 0))). set (kinds := map snd (parse_fnodes (loop_case 0))).
-  set (x := nth 3 (snd (run_of (loop_case 0))) (fstart cfgs kinds (script_beh (loop_case 0)) 1)).
-  assert (Hs : map (fun i => slot_at i (f_g x)) [0;1;2;3;4]%nat = [5; 6; 5; 5; 3] /\ g_nst (f_g x) = 6) by (vm_compute; split; reflexivity).
-  clearbody x. destruct Hs as [Hs Hn]. cbn [map] in Hs. injection Hs as S0 S1 S2 S3 S4.
+  set (cfgs := map fst (parse_fnodes quiet_case)). set (kinds := map snd (parse_fnodes quiet_case)).
+  set (x := nth 3 (snd (run_of quiet_case)) (fstart cfgs kinds (script_beh quiet_case) 1)).
+  assert (Hs : map (fun i => slot_at i (f_g x)) [0;1;2;3]%nat = [5; 6; 5; 5] /\ g_nst (f_g x) = 6) by (vm_compute; split; reflexivity).
+  clearbody x. destruct Hs as [Hs Hn]. cbn [map] in Hs. injection Hs as S0 S1 S2 S3.
   split; [exact Hn|]. rewrite Hn. split.
-  - intros i Hi. destruct i as [|[|[|[|[|i]]]]]; try lia. vm_compute in Hi. lia.
-  - intros i Hi He. destruct i as [|[|[|[|[|i]]]]]; try lia; [|vm_compute in Hi; lia].
+  - intros i Hi. destruct i as [|[|[|[|i]]]]; try lia. vm_compute in Hi. lia.
+  - intros i Hi He. destruct i as [|[|[|[|i]]]]; try lia; [|vm_compute in Hi; lia].
     split; [exists (Some 7); reflexivity|].
-    intros j. destruct j as [|[|[|[|[|j]]]]]; try reflexivity; unfold act_from, cfg; simpl; destruct j; reflexivity.
+    intros j. destruct j as [|[|[|[|j]]]]; try reflexivity. unfold act_from, cfg. simpl. destruct j; reflexivity.
 Qed.
